@@ -2123,7 +2123,7 @@ struct PlanDataT<
 	Bounds tasksBounds;
 	TasksBits tasksSuccesses;
 	TasksBits tasksFailures;
-	bool planExists;
+	bool planExists = false;
 	TaskStatus headStatus;
 	TaskStatus subStatus;
 
@@ -2172,7 +2172,7 @@ struct PlanDataT<
 	Bounds tasksBounds;
 	TasksBits tasksSuccesses;
 	TasksBits tasksFailures;
-	bool planExists;
+	bool planExists = false;
 	TaskStatus headStatus;
 	TaskStatus subStatus;
 
